@@ -17,6 +17,7 @@ python3 tools/t5_surface.py || warn "translator T5 failed"
 python3 tools/t2_bflyops.py || warn "translator T2 failed"
 python3 tools/t7_butterflies.py || warn "translator T7 failed"
 python3 tools/t8_planned.py 64 || warn "translator T8 failed"
+python3 tools/t9_trees.py || warn "translator T9 failed"
 (cd lean && lake build rfvmodel) || { echo "setup: the model driver does not build"; exit 1; }
 (cd lean && lake build RFV RFV.AllProps) || warn "some theorem modules do not build"
 (cd harness && cargo build --release --offline --no-default-features --target-dir /verif/.build/cargo-none) || warn "harness (no cargo features) does not build"
